@@ -21,7 +21,7 @@ use rustc_middle::mir::{
   self, AggregateKind, BasicBlock, Body, BorrowKind, Const, Operand, Place, ProjectionElem,
   Rvalue, StatementKind, TerminatorKind, UnwindAction,
 };
-use rustc_middle::ty::print::{with_crate_prefix, with_no_trimmed_paths};
+use rustc_middle::ty::print::{with_crate_prefix, with_no_trimmed_paths, with_no_visible_paths};
 use rustc_middle::ty::{self, Instance, Ty, TyCtxt, TypingEnv};
 use std::fmt::Write as _;
 
@@ -81,15 +81,15 @@ impl<'tcx> Cx<'tcx> {
     out
   }
   fn path(&self, d: DefId) -> String {
-    let s = with_no_trimmed_paths!(with_crate_prefix!(self.tcx.def_path_str(d)));
+    let s = with_no_trimmed_paths!(with_no_visible_paths!(with_crate_prefix!(self.tcx.def_path_str(d))));
     self.fix(s)
   }
   fn path_args(&self, d: DefId, args: ty::GenericArgsRef<'tcx>) -> String {
-    let s = with_no_trimmed_paths!(with_crate_prefix!(self.tcx.def_path_str_with_args(d, args)));
+    let s = with_no_trimmed_paths!(with_no_visible_paths!(with_crate_prefix!(self.tcx.def_path_str_with_args(d, args))));
     self.fix(s)
   }
   fn ty(&self, t: Ty<'tcx>) -> String {
-    let s = with_no_trimmed_paths!(with_crate_prefix!(format!("{}", t)));
+    let s = with_no_trimmed_paths!(with_no_visible_paths!(with_crate_prefix!(format!("{}", t))));
     self.fix(s)
   }
   fn line(&self, sp: rustc_span::Span) -> (String, usize) {
@@ -288,7 +288,7 @@ impl<'tcx> Cx<'tcx> {
     match fty.kind() {
       ty::FnDef(d, args) => {
         let _ = write!(out, "\"path\":{},\"full\":{}", q(&self.path(*d)), q(&self.path_args(*d, args)));
-        let targs: Vec<String> = args.iter().map(|a| q(&self.fix(with_no_trimmed_paths!(with_crate_prefix!(format!("{}", a)))))).collect();
+        let targs: Vec<String> = args.iter().map(|a| q(&self.fix(with_no_trimmed_paths!(with_no_visible_paths!(with_crate_prefix!(format!("{}", a))))))).collect();
         let _ = write!(out, ",\"targs\":[{}]", targs.join(","));
         if let Some(tr) = tcx.trait_of_assoc(*d) {
           let _ = write!(out, ",\"trait\":{}", q(&self.path(tr)));
@@ -560,6 +560,14 @@ impl rustc_driver::Callbacks for Cb {
         q(&file),
         line
       );
+      {
+        let ident = ty::GenericArgs::identity_for_item(tcx, did);
+        let gs: Vec<String> = ident
+          .iter()
+          .map(|a| q(&cx.fix(with_no_trimmed_paths!(with_no_visible_paths!(with_crate_prefix!(format!("{}", a)))))))
+          .collect();
+        let _ = write!(out, ",\"generics\":[{}]", gs.join(","));
+      }
       if matches!(kind, DefKind::Closure | DefKind::SyntheticCoroutineBody) {
         let parent = tcx.typeck_root_def_id(did);
         let _ = write!(out, ",\"root\":{}", q(&cx.path(parent)));
